@@ -39,7 +39,7 @@ ASSUMPTIONS = [
 OUTSIDE = ["rounding", "cupy path"]
 MERGE = True
 ABSTRACT_DIV = True
-PHASE_AXIOMS = False
+PHASE_AXIOMS = True
 TV_SAMPLES = {"quick": 2, "thorough": 2}
 
 
